@@ -1029,6 +1029,30 @@ pub fn strategy() -> impl Strategy<Value = Case> {
     })
 }
 
+/// Dense documents: one font, one page, 3–6 long strings drawn across the font's whole BMP repertoire, so that a
+/// single font carries well over 100 distinct, mostly non-adjacent code points (several ToUnicode blocks, long /W arrays).
+pub fn strategy_dense() -> impl Strategy<Value = Case> {
+    let draw = (any::<u8>(), prop::collection::vec((any::<u8>(), any::<u16>()), 40..=70), 6u8..=14, 0u8..3);
+    (any::<u16>(), prop::collection::vec(draw, 3..=6), 0u8..4).prop_map(|(fsel, draws, cfg)| {
+        let fs = fonts().as_ref().expect("fonts calibrated in run()");
+        let font = FONT_WEIGHTS[engine::pick_idx(fsel, FONT_WEIGHTS.len())];
+        let f = &fs[font as usize];
+        let mut out = Vec::new();
+        for (primary, specs, size, api) in draws {
+            // 4 of 5 characters from the whole BMP repertoire, the rest from the primary class / repeats / successors
+            let specs: Vec<CharSpec> = specs.into_iter().enumerate().map(|(i, (sel, idx))| if i % 5 != 4 { (150 + sel % 25, idx) } else { (sel % 220, idx) }).collect();
+            let text = make_text(f, primary, &specs, false, false, false);
+            if !text.is_empty() {
+                out.push(Draw { slot: 0, text, size, api });
+            }
+        }
+        if out.is_empty() {
+            out.push(Draw { slot: 0, text: make_text(f, 0, &[(0, 0)], false, false, false), size: 12, api: 0 });
+        }
+        Case { fonts: vec![font], pages: vec![out], cfg }
+    })
+}
+
 fn run(ctx: &Ctx) {
     match fonts() {
         Ok(fs) => {
@@ -1049,6 +1073,7 @@ fn run(ctx: &Ctx) {
     }
     ctx.set_shrink_budget(400);
     ctx.run_sub("documents", ctx.tier.pick(1_000, 20_000), strategy, check);
+    ctx.run_sub("dense", ctx.tier.pick(150, 3_000), strategy_dense, check);
 }
 
 fn replay(ctx: &Ctx, sub: &str, case: &Value) -> Result<Outcome, String> {
@@ -1056,7 +1081,7 @@ fn replay(ctx: &Ctx, sub: &str, case: &Value) -> Result<Outcome, String> {
         return Err(format!("font calibration failed: {e}"));
     }
     match sub.trim_start_matches("replay:") {
-        "documents" => ctx.replay_case::<Case, _>(case, check),
+        "documents" | "dense" => ctx.replay_case::<Case, _>(case, check),
         s => Err(format!("unknown sub-check {s}")),
     }
 }
